@@ -5,7 +5,6 @@ package props
 
 import (
 	"encoding/binary"
-	"encoding/hex"
 	"encoding/json"
 	"fmt"
 	"hash/fnv"
@@ -13,8 +12,10 @@ import (
 	"path/filepath"
 	"sort"
 	"strconv"
+
 	"sync"
 	"testing"
+	"verif/enc"
 
 	"pgregory.net/rapid"
 )
@@ -26,41 +27,7 @@ type TB interface {
 	Helper()
 }
 
-// BStr is a byte string that survives JSON (arbitrary bytes, invalid UTF-8 included).
-type BStr []byte
-
-type bstrJSON struct {
-	Q   string `json:"q"`
-	Hex string `json:"hex"`
-}
-
-func (b BStr) MarshalJSON() ([]byte, error) {
-	q := strconv.QuoteToASCII(string(b))
-	if len(q) > 400 {
-		q = q[:400] + "…(" + strconv.Itoa(len(b)) + " bytes)"
-	}
-	return json.Marshal(bstrJSON{Q: q, Hex: hex.EncodeToString(b)})
-}
-
-func (b *BStr) UnmarshalJSON(d []byte) error {
-	var j bstrJSON
-	if err := json.Unmarshal(d, &j); err != nil {
-		return err
-	}
-	if j.Hex == "" && j.Q != "" {
-		s, err := strconv.Unquote(j.Q)
-		if err != nil {
-			return err
-		}
-		*b = BStr(s)
-		return nil
-	}
-	v, err := hex.DecodeString(j.Hex)
-	*b = v
-	return err
-}
-
-func (b BStr) String() string { return string(b) }
+type BStr = enc.BStr
 
 func tier() string {
 	if v := os.Getenv("VERIF_TIER"); v == "thorough" {
@@ -471,12 +438,4 @@ func (c *collectTB) guard(fn func()) {
 
 // try runs a piece of library code and returns the recovered panic value (nil if none).
 // Only library calls go inside, never assertions.
-func try(fn func()) (pv any) {
-	defer func() {
-		if r := recover(); r != nil {
-			pv = fmt.Sprintf("panic: %v", r)
-		}
-	}()
-	fn()
-	return nil
-}
+func try(fn func()) (pv any) { return enc.Try(fn) }
